@@ -58,6 +58,8 @@ var verifH *VerifHooks
 
 // VerifInstall installs (or with nil removes) the hook table. It must not be
 // called while a cache is in use.
+//
+//go:norace
 func VerifInstall(h *VerifHooks) { verifH = h }
 
 // Exported copies of the identifiers in verif_sites.go for the simulator.
@@ -100,30 +102,35 @@ type verifLoopState struct {
 	tick    chan time.Time
 }
 
+//go:norace
 func verifYield(site int, key uint64) {
 	if h := verifH; h != nil && h.Yield != nil {
 		h.Yield(site, key)
 	}
 }
 
+//go:norace
 func verifEvent(kind int, key uint64, a, b int64) {
 	if h := verifH; h != nil && h.Event != nil {
 		h.Event(kind, key, a, b)
 	}
 }
 
+//go:norace
 func verifTaskStart(kind int, obj any) {
 	if h := verifH; h != nil && h.TaskStart != nil {
 		h.TaskStart(kind, obj.(VerifReadier))
 	}
 }
 
+//go:norace
 func verifTaskEnd(kind int) {
 	if h := verifH; h != nil && h.TaskEnd != nil {
 		h.TaskEnd(kind)
 	}
 }
 
+//go:norace
 func verifIdle(kind int, st *verifLoopState) {
 	h := verifH
 	if h == nil || h.Idle == nil {
@@ -140,6 +147,7 @@ func verifIdle(kind int, st *verifLoopState) {
 	}
 }
 
+//go:norace
 func verifStopRequest(st *verifLoopState) {
 	if verifH != nil {
 		atomic.AddInt32(&st.stopReq, 1)
@@ -245,6 +253,7 @@ func verifRingCheckout(b *ringBuffer) *verifStripe {
 //go:norace
 func verifRingCheckin(vs *verifStripe) { vs.busy = false }
 
+//go:norace
 func verifRingPush(b *ringBuffer, item uint64) bool {
 	h := verifH
 	if h == nil || h.Stripe == nil {
